@@ -222,7 +222,8 @@ pub fn groups(property: &str, tier: &str, seed: u64) -> Vec<Group> {
     }
     // generated sources: richer task graphs, more map entries, naming and kerning-location stress
     let n_gen = match (property, quick) {
-        ("C01", true) | ("C02", true) => 6,
+        ("C01", true) => 12,
+        ("C02", true) => 6,
         ("C14", true) => 12,
         ("C15", true) => 4,
         ("C14", false) => 120,
@@ -235,7 +236,13 @@ pub fn groups(property: &str, tier: &str, seed: u64) -> Vec<Group> {
             "C14" => ["names", "kern", "names", "mixed", "kern", "composites"][i % 6],
             _ => profiles[i % profiles.len()],
         };
-        let k = if rng.chance(1, 2) { 0 } else { 1 + rng.below(6) };
+        // generated sources are rich in mixed and nested composites: make sure the component
+        // options, which decide what the glyph-order job does with them, all get their turn
+        let k = match (property, i % 3) {
+            ("C01", 1) | ("C02", 1) => 4,
+            ("C01", 2) | ("C02", 2) => 1 + rng.below(6),
+            _ => if rng.chance(1, 2) { 0 } else { 1 + rng.below(6) },
+        };
         let mut o = opts[k].clone();
         if property == "C14" || property == "C15" {
             o.emit_ir = false;
@@ -270,13 +277,14 @@ fn byte_fault(rng: &mut Prng, files: &[String]) -> Option<Fault> {
     let kind = *rng.pick(&[
         "src-truncate", "src-truncate", "src-bitrot", "src-bitrot", "src-delete", "src-misdirect", "src-empty",
         "src-dup-lines", "src-drop-lines", "src-drop-lines", "src-number", "src-number", "src-number",
-        "src-cycle", "src-cycle", "src-cycle", "src-nest", "src-nest", "src-soup",
+        "src-cycle", "src-cycle", "src-cycle", "src-nest", "src-nest", "src-soup", "src-include", "src-include",
     ]);
     let prefer: Vec<&String> = match kind {
         "src-cycle" => files
             .iter()
             .filter(|f| f.ends_with(".glyphs") || (f.ends_with(".glif") && rng.chance(1, 1)))
             .collect(),
+        "src-include" => files.iter().filter(|f| f.ends_with(".fea") || f.ends_with(".glyphs")).collect(),
         "src-nest" | "src-soup" => files
             .iter()
             .filter(|f| f.ends_with(".glyphs") || f.ends_with(".plist") || f.ends_with(".fea") || f.ends_with(".designspace") || f.ends_with(".glif"))
